@@ -1,5 +1,8 @@
 import TempestVerif.Drv.Util
 import TempestVerif.Model.Records
+import TempestVerif.Model.RecSM
+import TempestVerif.Model.LogLike
+import TempestVerif.Model.Boundary
 import TempestVerif.Gen.Tables
 /- line-protocol handlers of property C07: particle movement on TAGS.
    A particle is a natural-number tag; `T u = u`, `Lk x = (x, x)`, so a coherent record is one whose four
@@ -46,12 +49,165 @@ def runOps (ops : List (Op Nat)) : String :=
       | none => s!"error:{k}"
   go ⟨[], ⟨[], [], [], []⟩⟩ 0 ops
 
+/-! ### StateManager-level model (`Model.RecSM`) at exact rationals, with the real boundary maps (`Model.Boundary`)
+
+   c07sm.run hb=<0|1> lb=<0|1> sg=<0|1> per=<idx list> refl=<idx list> inf=<tags> d=<dim> tapes=<tape>;<tape>…
+          [logw=<tok,…> posts=<trim>:<res>:<rb>;…]
+     tape  W:<tags>:<picks>                        warm-up: draws u(t) = (t+1/2)/2^20 in every coordinate
+           A:<idx>:<step>!<step>…                  annealing; step = <raw vectors>&<accept bits>; a vector = q_q_q
+     posts <trim> / <res> = N or an index list, rb = 0|1
+   → cur=U|X|L|B hist=U|X|L|B ret=B;B… mid=<cur after resampler.run>~<cur after mutator.run>;… [post=X|L|B|LW;…]
+     (history: batches joined by `;`; rows by `,`; coordinates by `_`; `N` = None; `-` = empty) or error:<iteration>
+-/
+section sm
+open Model.RecSM
+
+def M : Rat := 1048576
+
+def uOf (d : Nat) (t : Nat) : List Rat := List.replicate d (((t : Rat) + 1 / 2) / M)
+def tT (u : List Rat) : List Rat := u.map fun c => 10 * c - 5
+/-- logl = −(x0+5)·3 − 1 (`none` = −inf on the tags listed in `inf`), blob = 2·x0 + 7 -/
+def tLk (inf : List Nat) (x : List Rat) : Option Rat × Rat :=
+  match x with
+  | [] => (some 0, 0)
+  | x0 :: _ =>
+    let t := ((x0 + 5) / 10) * M - 1 / 2
+    (if inf.any (fun k => (k : Rat) == t) then none else some (-(x0 + 5) * 3 - 1), x0 * 2 + 7)
+
+def parseVec? (s : String) : Option (List Rat) := (s.splitOn "_").mapM parseRat?
+def parseVecs? (s : String) : Option (List (List Rat)) := if s == "-" then some [] else (s.splitOn ",").mapM parseVec?
+
+def parseStep? (s : String) : Option (Step (List Rat)) :=
+  match s.splitOn "&" with
+  | [r, a] => match parseVecs? r, parseBits? a with
+    | some r, some a => some ⟨r, a⟩
+    | _, _ => none
+  | _ => none
+
+def parseTape? (d : Nat) (s : String) : Option (Tape (List Rat)) :=
+  match s.splitOn ":" with
+  | ["W", ts, pk] => match parseNatList? ts, parseNatList? pk with
+    | some ts, some pk => some ⟨true, ts.map (uOf d), pk, [], []⟩
+    | _, _ => none
+  | ["A", ix, sts] => match parseNatList? ix, (if sts == "-" then some [] else (sts.splitOn "!").mapM parseStep?) with
+    | some ix, some sts => some ⟨false, [], [], ix, sts⟩
+    | _, _ => none
+  | _ => none
+
+def showVec (v : List Rat) : String := "_".intercalate (v.map showRat)
+def showRows {β : Type} (f : β → String) (l : List β) : String := if l.isEmpty then "-" else ",".intercalate (l.map f)
+def showL (l : Option Rat) : String := match l with | some v => showRat v | none => "ninf"
+def showOpt {β : Type} (f : β → String) : Option β → String
+  | none => "N"
+  | some v => f v
+
+abbrev SmSt := Model.RecSM.St (List Rat) (List Rat) (Option Rat) Rat
+abbrev SmCur := Cur (List Rat) (List Rat) (Option Rat) Rat
+
+def showCur (c : SmCur) : String :=
+  s!"{showOpt (showRows showVec) c.u}|{showOpt (showRows showVec) c.x}|{showOpt (showRows showL) c.l}|{showOpt (showRows showRat) c.b}"
+
+def showBatches {β : Type} (f : β → String) (h : List (List β)) : String :=
+  if h.isEmpty then "-" else ";".intercalate (h.map (showRows f))
+
+def showHist (h : Hist (List Rat) (List Rat) (Option Rat) Rat) : String :=
+  s!"{showBatches showVec h.u}|{showBatches showVec h.x}|{showBatches showL h.l}|{showBatches showRat h.b}"
+
+def parseOptIdx? (s : String) : Option (Option (List Nat)) :=
+  if s == "N" then some none else (parseNatList? s).map some
+
+def parsePost? (s : String) : Option (Option (List Nat) × Option (List Nat) × Bool) :=
+  match s.splitOn ":" with
+  | [t, r, b] => match parseOptIdx? t, parseOptIdx? r with
+    | some t, some r => some (t, r, b == "1")
+    | _, _ => none
+  | _ => none
+
+def showPost (p : Post (List Rat) (Option Rat) Rat String) : String :=
+  s!"{showRows showVec p.x}|{showRows showL p.l}|{showOpt (showRows showRat) p.b}|{showRows id p.lw}"
+
+def smRun (cfg : Cfg) (per refl : List Nat) (inf : List Nat) (tapes : List (Tape (List Rat)))
+    (logw : List String) (posts : List (Option (List Nat) × Option (List Nat) × Bool)) : String :=
+  let fold := Model.Boundary.apply (α := Rat) per refl
+  let chk := Model.Boundary.checkBounds (α := Rat) per refl
+  let isInf : Option Rat → Bool := Option.isNone
+  let rec go (s : SmSt) (k : Nat) (rets : List String) (mids : List String) : List (Tape (List Rat)) → String
+    | [] =>
+      let ps := posts.map fun q => match posterior cfg logw q.1 q.2.1 q.2.2 s with
+        | some p => showPost p
+        | none => "error"
+      let tail := if posts.isEmpty then "" else " post=" ++ ";".intercalate ps
+      s!"cur={showCur s.cur} hist={showHist s.hist} ret={";".intercalate rets.reverse} mid={";".intercalate mids.reverse}{tail}"
+    | t :: ts =>
+      match iterateStates cfg tT (tLk inf) isInf fold chk s t with
+      | some r => go r.2.2 (k + 1) (showOpt (showRows showRat) r.2.2.cur.b :: rets)
+                    (s!"{showCur r.1.cur}~{showCur r.2.1.cur}" :: mids) ts
+      | none => s!"error:{k}"
+  go init 0 [] [] tapes
+
+/-! ### `_log_like` (`Model.LogLike`) on integers
+
+   c07ll.run mode=<v|p|s> rets=<ret>;<ret>…     ret = n:<int>  |  t:<int>:<item>+<item>…  (item = ints joined by `_`; `t:<int>:-` = 1-tuple)
+   → logl=<ints> blobs=N|<row>;<row>…  (row = ints joined by `_`)   or   error
+-/
+open Model.LogLike in
+def parseRet? (s : String) : Option (Ret Int (List Int)) :=
+  match s.splitOn ":" with
+  | ["n", l] => (parseInt? l).map Ret.num
+  | ["t", l, items] =>
+    match parseInt? l, (if items == "-" then some [] else (items.splitOn "+").mapM fun it => (it.splitOn "_").mapM parseInt?) with
+    | some l, some its => some (Ret.tup l its)
+    | _, _ => none
+  | _ => none
+
+open Model.LogLike in
+def llRun (mode : Mode) (rets : List (Ret Int (List Int))) : String :=
+  -- the "points" are positions; the user's function returns the scripted result of that position
+  let xs := List.range rets.length
+  let lk : Nat → Ret Int (List Int) := fun i => (rets[i]?).getD (Ret.num 0)
+  let lkVec : List Nat → List Int := fun xs => xs.map fun i => (lk i).logl
+  match logLike mode lkVec lk packFlat xs with
+  | none => "error"
+  | some (ls, b) =>
+    let bs := match b with
+      | none => "N"
+      | some rows => if rows.isEmpty then "-" else ";".intercalate (rows.map fun (r : List Int) => if r.isEmpty then "-" else "_".intercalate (r.map toString))
+    s!"logl={showList toString ls} blobs={bs}"
+
+end sm
+
 def handle (cmd : String) (args : List (String × String)) : Option String :=
   match cmd with
   | "rec.run" =>
     match (getArg args "ops").bind fun s => (s.splitOn ";").mapM parseOp? with
     | some ops => some (runOps ops)
     | none => some "bad-op"
+  | "c07sm.run" =>
+    let b (k : String) : Option Bool := (getArg args k).map (· == "1")
+    match b "hb", b "lb", b "sg", (getArg args "per").bind parseNatList?, (getArg args "refl").bind parseNatList?,
+          (getArg args "inf").bind parseNatList?, (getArg args "d").bind String.toNat? with
+    | some hb, some lb, some sg, some per, some refl, some inf, some d =>
+      match (getArg args "tapes").bind fun s => (if s == "-" then some [] else (s.splitOn ";").mapM (parseTape? d)) with
+      | none => some "bad-op"
+      | some tapes =>
+        let logw := match getArg args "logw" with
+          | some s => if s == "-" then [] else s.splitOn ","
+          | none => []
+        match (match getArg args "posts" with
+               | some s => (s.splitOn ";").mapM parsePost?
+               | none => some []) with
+        | some posts => some (smRun ⟨hb, lb, sg⟩ per refl inf tapes logw posts)
+        | none => some "bad-op"
+    | _, _, _, _, _, _, _ => some "bad-op"
+  | "c07ll.run" =>
+    let mode : Option Model.LogLike.Mode := match getArg args "mode" with
+      | some "v" => some .vectorized
+      | some "p" => some .pool
+      | some "s" => some .serial
+      | _ => none
+    match mode, (getArg args "rets").bind fun s => (if s == "-" then some [] else (s.splitOn ";").mapM parseRet?) with
+    | some m, some rets => some (llRun m rets)
+    | _, _ => some "bad-op"
   | _ => none
 
 end Drv.C07
